@@ -5,7 +5,7 @@ rows = []
 for d in sorted(glob.glob('/verif/seeded/*/meta.json')):
     m = json.load(open(d))
     r = m['result']
-    first = 'missed at first, caught after strengthening' if r.startswith('missed') else 'caught as written'
+    first = 'missed at first' if r.startswith('missed') else ('not observable' if r.startswith('not observable') else 'caught as written')
     rows.append("| `%s` | %s | %s | %s — %s |" % (m['id'], m['property'], m['needs'].replace('|', '/'), first, r.replace('|', '/')))
 p = '/verif/DESIGN.md'
 s = open(p).read()
